@@ -128,7 +128,10 @@ def gen_le(rng, tier, seed):
             ops.append(['readdr', d])
         else:
             ops.append(['wait', round(rng.random() * 0.2, 3)])
-    return {'n': n, 'ext': ext, 'privacy': privacy, 'profile': rng.choice(PROFILE_NAMES), 'slow': rng.randrange(n), 'ops': ops}
+    # the last thing in some histories with three or more devices: one device drops off the link (no goodbye); the connections among
+    # the others must be none the wiser and keep carrying data
+    vanish = rng.randrange(n) if n >= 3 and rng.random() < 0.3 else None
+    return {'n': n, 'ext': ext, 'privacy': privacy, 'profile': rng.choice(PROFILE_NAMES), 'slow': rng.randrange(n), 'ops': ops, 'vanish': vanish}
 
 
 class Ctx:
@@ -309,6 +312,8 @@ def run_le(case):
                 if not _readdr(cx, op[1], privacy[op[1]]):
                     break
             sim.trace.shape(kind, tuple(str(x) for x in op[1:5] if not isinstance(x, (list, float))))
+        if not sim.violations:
+            _vanish(cx, case.get('vanish'))
         _final_tables(cx)
         return result(sim, nontrivial=established > 0 and carried > 0)
     finally:
@@ -687,6 +692,37 @@ def _connect_absent(cx, a):
     return True
 
 
+def _vanish(cx, node):
+    """Device `node` drops off the link. Judged here: only the connections among the remaining devices (they stay up, report no
+    disconnection and still deliver in both directions); what the vanished device's own peers are told is another property's matter."""
+    if node is None or cx.links is None:
+        return
+    sim, world = cx.sim, cx.world
+    others = {k: v for k, v in cx.links.items() if node not in k}
+    if not others:
+        return
+    ended = []
+    for k, conns in others.items():
+        for i in (0, 1):
+            conns[i].on('disconnection', lambda reason, k=k, i=i: ended.append((k, i, reason)))
+    link = world[node].controller.link
+    sim.call(link.remove_controller, world[node].controller)
+    for k in [k for k in cx.links if node in k]:
+        cx.links.pop(k)
+    cx.vanished = node
+    sim.loop.settle(vt_budget=1.0)
+    sim.loop.advance(0.01)
+    sim.probe('a_device_dropped_off_the_link_while_others_stay_connected')
+    if ended:
+        k, i, reason = ended[0]
+        sim.violation_once('vanish', 'bystander-connection-ended-when-another-device-left-the-link', f'N{k[i]} was told that its connection N{k[0]}-N{k[1]} ended (reason {reason:#x}) when N{node} left')
+        return
+    for (a, b) in list(others):
+        for side in (0, 1):
+            if not _send(cx, a, b, side, 2, 5):
+                return
+
+
 def _final_tables(cx):
     """Live set per device equals the model (connections the harness believes are up)."""
     if cx.sim.violations or cx.links is None:
@@ -696,6 +732,8 @@ def _final_tables(cx):
         expect[a].add(ca.handle)
         expect[b].add(cb.handle)
     for i, nd in enumerate(cx.world.nodes):
+        if i == getattr(cx, 'vanished', None):
+            continue  # (nobody tells a device that dropped off the link anything)
         have = set(nd.device.connections.keys())
         if have != expect[i]:
             cx.sim.violation_once('tables', 'final-connection-set-mismatch', f'N{i} lists handles {sorted(have)}, model says {sorted(expect[i])}')
@@ -772,7 +810,8 @@ def gen_classic(rng, tier, seed):
             k = rng.randrange(len(links))
             ops.append([rng.choice(['disc', 'disc', 'disc_both']), list(links[k]), rng.randrange(2), rng.choice([0, 0, 1, 2])])  # last: payloads sent right before
             links.pop(k)
-    return {'n': n, 'profile': rng.choice(PROFILE_NAMES), 'slow': rng.randrange(n), 'ops': ops}
+    vanish = rng.randrange(n) if n >= 3 and rng.random() < 0.3 else None
+    return {'n': n, 'profile': rng.choice(PROFILE_NAMES), 'slow': rng.randrange(n), 'ops': ops, 'vanish': vanish}
 
 
 def run_classic(case):
@@ -934,8 +973,14 @@ def run_classic(case):
                 sim.loop.drive(lambda: ta.done(), vt_budget=10.0)
                 sim.loop.settle(vt_budget=1.0)
                 sim.loop.advance(0.01)
-                if any(bytes(c.peer_address) == bytes(world[b].device.public_address) for c in world[a].device.connections.values()):
-                    raise HarnessError('the refused set-up produced a connection')
+                has_a = any(bytes(c.peer_address) == bytes(world[b].device.public_address) for c in world[a].device.connections.values())
+                has_b = any(bytes(c.peer_address) == bytes(world[a].device.public_address) for c in world[b].device.connections.values())
+                if has_a != has_b:
+                    sim.violation_once('onesided', f'one-sided-connection:classic:refused-set-up:{"pager" if has_a else "paged"}-only',
+                                       f'after the refused set-up N{a if has_a else b} reports a connection, the other end reports none')
+                    break
+                if has_a:
+                    raise HarnessError('the refused set-up produced a connection on both ends')
                 sim.probe('classic_set_up_refused_then_connect')
             elif kind == 'cross_page':
                 _, a, b, stagger = op
@@ -989,6 +1034,8 @@ def run_classic(case):
                 if not _disconnect(cx, a, b, side, kind == 'disc_both', op[3] if len(op) > 3 else 0):
                     break
             sim.trace.shape(kind, str(op[1]))
+        if not sim.violations:
+            _vanish(cx, case.get('vanish'))
         _final_tables(cx)
         return result(sim, nontrivial=established > 0 and carried > 0)
     finally:
